@@ -8,7 +8,7 @@ F = "pygamma_agreement/cst.py::"
 register_class("CorpusShufflingTool", "pygamma_agreement/cst.py")
 CONT = lambda: ObjT("Continuum")      # noqa: E731
 CST = lambda: ObjT("CorpusShufflingTool", magnitude=RealT(), _reference_annotator=StrT(), _reference_continuum=CONT(),     # noqa: E731
-                   _categories=ObjT("SetStr"))
+                   _categories=ObjT("SetStr"), SHIFT_FACTOR=RealT())
 CST_MACROS = VIEW_MACROS + [Macro("ref", [], "self._reference_continuum"), Macro("ra", [], "self._reference_annotator"),
                             Macro("isname", ["a"], "exists(k, 0, len(new_annotators), new_annotators[k] == a)")]
 
@@ -100,4 +100,47 @@ contract(F + "CorpusShufflingTool.false_neg_shuffle",
                 ("before", "for unit in list(continuum[annotator]): ...", "UB = Us(continuum)"),
                 ("before", "security = ...", "model_inv wfmap(continuum)"),
                 ("before", "if len(continuum._annotations[annotator]) == 0: ...", "model_inv wfmap(continuum)")],
+         serves={"C19"})
+
+# K4 (shifting): every unit of the result is an old unit of the same annotator whose ends moved by at most shift_max, label kept;
+# nothing else changes; with magnitude 0 the corpus is unchanged (K3).  The COUNT clause ("shifting keeps the number of units") needs the
+# genericity hypothesis G (a shifted unit may coincide with another unit of the annotator and be merged by the set): bounded only.
+SH_MACROS = VIEW_MACROS + [
+    Macro("ref", [], "self._reference_continuum"),
+    Macro("near", ["u", "v"], "v.haslab == u.haslab and v.lab == u.lab and v.s - u.s <= SM and u.s - v.s <= SM and v.e - u.e <= SM and u.e - v.e <= SM"),
+    Macro("image_of_old", ["a", "v"], "exists([(u, Unit)], U0[a][u] and near(u, v))"),
+    Macro("done", ["a", "k"], "exists(i, 0, k, old(Kseq(continuum))[i] == a)"),
+]
+contract(F + "CorpusShufflingTool.shift_shuffle",
+         params={"self": CST(), "continuum": CONT()}, modifies=["continuum"], macros=SH_MACROS,
+         ghost_vars={"SM": ("Real", None), "U0": ("RUSet", None), "UB": ("RUSet", None)},
+         requires=["RI(continuum)", "not same_obj(continuum, self._reference_continuum)", "RI(ref())", "NumUnits(ref()) >= 1",
+                   "self.magnitude >= 0", "self.SHIFT_FACTOR == 2"],
+         raises={"ValueError": {}},      # a drawn segment not longer than pyannote's precision is rejected by Continuum.add
+         ensures=[cl("Ann(continuum) == old(Ann(continuum))", "C19", name="same-annotators"),
+                  cl("SM >= 0 and forall([(a, Real), (v, Unit)], implies(Us(continuum)[a][v], exists([(u, Unit)], old(Us(continuum))[a][u] and near(u, v))))",
+                     "C19", name="K4-every-unit-is-an-old-unit-of-the-same-annotator-moved-by-at-most-shift_max-label-kept"),
+                  cl("implies(self.magnitude == 0, SM == 0)", "C19", name="K3-no-shift-at-magnitude-0"),
+                  cl("RI(continuum)", "C19", name="RI")],
+         loops={"L0": dict(match="for annotator in continuum.annotators", index="kA", modifies=["continuum"],
+                           inv=["Ann(continuum) == old(Ann(continuum))", "RI(continuum)",
+                                "forall([(a, Real), (v, Unit)], implies(Us(continuum)[a][v], image_of_old(a, v)))",
+                                "forall([(a, Real)], implies(not done(a, kA), Us(continuum)[a] == U0[a]))"]),
+                "L0.0": dict(match="for unit in continuum[annotator]", index="jU", modifies=["continuum"], iter_name="SNAP",
+                             inv=["Ann(continuum) == old(Ann(continuum))", "RI(continuum)", "Ann(continuum)[annotator]",
+                                  "forall([(a, Real), (v, Unit)], implies(Us(continuum)[a][v], image_of_old(a, v)))",
+                                  "forall([(a, Real)], implies(not done(a, kA) and a != annotator, Us(continuum)[a] == U0[a]))",
+                                  "members(SNAP) == U0[annotator]",
+                                  "forall(j, jU, size(SNAP), Us(continuum)[annotator][seqof(SNAP)[j]])"]),
+                "L0.0.0": dict(match="while start_seg >= end_seg",
+                               inv=["implies(start_seg < end_seg, start_seg - unit.s <= SM and unit.s - start_seg <= SM and "
+                                    "end_seg - unit.e <= SM and unit.e - end_seg <= SM)"])},
+         hooks=[("before", "for annotator in continuum.annotators: ...", "model_inv wfmap(continuum)"),
+                ("before", "continuum.remove(annotator, unit)", "model_inv wfset(SNAP)"),
+                ("before", "continuum.remove(annotator, unit)", "assert U0[annotator][unit] and Us(continuum)[annotator][unit]"),
+                ("before", "continuum.remove(annotator, unit)", "assert forall(j, jU + 1, size(SNAP), seqof(SNAP)[j] != unit)"),
+                ("after", "shift_max = ...", "SM = shift_max"),
+                ("after", "shift_max = ...", "U0 = Us(continuum)"),
+                ("after", "shift_max = ...", "assert SM >= 0 and implies(self.magnitude == 0, SM == 0)"),
+                ("after", "shift_max = ...", "assert forall([(a, Real), (v, Unit)], implies(Us(continuum)[a][v], image_of_old(a, v)))")],
          serves={"C19"})
